@@ -107,3 +107,17 @@ claim("C18",
       "(FS1-FS4); Target::default() is Sql(None) (TD1). Equality of 'option x' and 'header x' follows: both routes yield the same Dialect value.",
       "strum's Dialect::from_str is an uninterpreted partial function (the name table itself is derive output); HashMap lookup of the header "
       "and translate_query are external; the resolver-independence clause is argued, not checked.")
+
+prop("C14", ["prql_prec"],
+     not_covered="line breaking (SeparatedExprs), interpolation escaping, idempotence, the other arms of ExprKind::write (unary / range / call "
+                 "operands inherit binary_position: the rows quantify over every inherited value), string escaping beyond the delimiter length")
+claim("C14",
+      "PARTIAL. Proved on the real code: the formatter's decision rule needs_parenthesis = its documented rule over the real strength / "
+      "associativity / can_bind_left tables (NPF, BS1, AC1, CB1); write_within raises the context strength to the parent's (WW1); the Binary arm "
+      "prints the left operand with the caller's unbound_expr flag and position Left, the right operand with position Right (BA1); one row per "
+      "(parent position, child kind), for every inherited position / flag / outer context: no parentheses ==> the PRQL grammar re-attaches the child "
+      "to the same parent (FP1.*; the grammar's Pratt table is extracted from parser/expr.rs and is itself checked against the documented table, "
+      "PP1.*); identifiers are written bare only if they are not lexer keywords, in both ident writers (WI1/2, DI1/2, FP2.*, FP3.*); the string "
+      "delimiter run is odd and longer than any quote run (QS2). NOT proved: line breaking, idempotence, whole-AST round trip.",
+      "pr::Expr::write's use of needs_parenthesis and the non-binary arms' option handling are read off the text, not verified; chumsky's pratt() "
+      "semantics assumed; regex / HashSet / Formatter / String operations are shims by contract.")
